@@ -16,9 +16,9 @@ Theorem C04_parse : forall (items : list item) (last : list tok),
   = ROk (flat_map fst items ++ last) (map (fun it => triple (snd it)) items).
 Proof. exact RedirsProofs.C04_parse. Qed.
 
-Theorem C04_parse_from : forall op pre post s1 s2 f,
+Theorem C04_parse_from : forall op pre post s2 f,
   (op = s_lt \/ (op = s_lt3 /\ f <> s_lt)) -> no_from pre -> no_from post ->
-  from_tokens (pre ++ [(s1, op); (s2, f)] ++ post) = set_from (Some (op, f)) (from_tokens (pre ++ post)).
+  from_tokens (pre ++ [([], op); (s2, f)] ++ post) = set_from (Some (op, f)) (from_tokens (pre ++ post)).
 Proof. exact RedirsProofs.C04_parse_from. Qed.
 
 (* ---- application: the reference is the POSIX left-to-right fold posix_sinks ---- *)
